@@ -27,6 +27,9 @@ def cases(rng, quick, gr):
     # integer LITERALS beyond 2**53 (exact integers, not doubles) as option, positional, keyword and list values, declared and listed
     for big in ["9007199254740993", "12345678901234567", "4611686018427387905", "9223372036854775807", "9007199254740992"]:
         yield {"tag": "big-int-literal", "text": "name m\nversion 1.0\ntarget dev (seed=%s)\nint k = %s\nOp(%s, a=%s, l=[%s, 1], b=-%s) | 0\nOp(k) | 1\nfor int i in [%s, 3]\n    Op(i) | 2\n" % ((big,) * 7)}
+    # int scalars initialised with non-integer floats, then used as arguments and modes (implementation-level predicate, see c05)
+    from props.c05 import int_from_float_cases
+    yield from int_from_float_cases(rng, quick)
     # statement forms x bracket styles x argument shapes (small exhaustive matrix)
     hdr = "name m\nversion 1.0\n"
     forms = []
